@@ -50,6 +50,7 @@ def gen_case(rng, cid, ev="FacePad", nmax=3, maxelems=260, vector=None, force_bo
         g["ctor"] = {"periodic": {"k": "b", "v": rng.random() < 0.3},
                      "boundary": gen.rand_tagged(rng, axnames, gen.RULES, total_only=True),
                      "fill_value": gen.rand_tagged(rng, axnames, [-3, 0, 2, 7], total_only=True), "default_shifts": NONE}
+        halves = False
         isvec = rng.random() < 0.4 if vector is None else vector
         if isvec:
             vaxis = rng.choice(["a1", "a2"])
@@ -83,6 +84,14 @@ def gen_case(rng, cid, ev="FacePad", nmax=3, maxelems=260, vector=None, force_bo
             rng.shuffle(d2)
             other = gen.rand_data(rng, d2, 1, 60)
             other["flat"] = [v + 400 for v in rng.sample(range(1, 400), len(other["flat"]))]
+            if rng.random() < 0.25:
+                # the two components in different dtypes: an integer component next to a partner with fractional
+                # values (records hold twice the real values) - the halo is the partner's value, not a cast of it
+                data["flat"] = [2 * v for v in data["flat"]]
+                other["flat"] = [2 * v + 1 for v in other["flat"]]
+                data["den"] = other["den"] = 2
+                data["dtype"] = rng.choice(["int32", "int64"])
+                halves = True
         else:
             other = {"dims": [], "shape": [], "flat": [0]}
         wmax = min(3, N)
@@ -101,10 +110,22 @@ def gen_case(rng, cid, ev="FacePad", nmax=3, maxelems=260, vector=None, force_bo
             size *= s + (w[1] + w[2] if w else 0)
         if size > maxelems:
             continue
-        return {"id": cid, "ev": ev, "grid": g, "decomp": decomp or {"K": [0, 0], "per": [False, False], "orient": []},
+        case = {"id": cid, "ev": ev, "grid": g, "decomp": decomp or {"K": [0, 0], "per": [False, False], "orient": []},
                 "args": {"data": data, "vaxis": vaxis, "other": other, "widths": widths,
                          "boundary": gen.rand_tagged(rng, axnames, gen.RULES, partial=True),
                          "fill_value": gen.rand_tagged(rng, axnames, [-3, 0, 2, 7], partial=True)}}
+        if halves:
+            # fill values in the same units as the data of the record (twice the real ones)
+            def twice(t):
+                if t["k"] == "s":
+                    return {"k": "s", "v": 2 * t["v"]}
+                if t["k"] == "m":
+                    return {"k": "m", "v": [[a_, 2 * v_] for a_, v_ in t["v"]]}
+                return t
+            g["ctor"]["fill_value"] = twice(g["ctor"]["fill_value"])
+            case["args"]["fill_value"] = twice(case["args"]["fill_value"])
+            g["fill_den"] = case["args"]["fill_den"] = 2
+        return case
 
 
 def execute(case):
@@ -134,7 +155,7 @@ def execute(case):
         if set(res.dims) == set(da.dims):
             # pad makes no promise about dimension order (the face dimension comes back first): compare by name
             res = res.transpose(*da.dims)
-        rec["out"] = model.encode_result(res, 1, nm)
+        rec["out"] = model.encode_result(res, a["data"].get("den", 1), nm)
         rec["out"]["dims_as_returned"] = orig
     except Exception as ex:
         rec["out"] = model.encode_error(ex)
